@@ -192,7 +192,7 @@ HISTORY = {
     "C02/L2-m1": ("missed", "partitions with an open transaction: the fake reports the last stable offset to every consumer (it did so for read_committed ones only), the reader starts exactly there"),
     "C04/L4-m1": ("missed", "NOT CAUGHT by C04's check (the Writer's conversion of messages to records is not a frame codec); reported by C05's check (produce-null-vs-empty/writer)"),
     "C20/L5-m1": ("missed", "entry client-raw: the mutated Produce frames also through Client.RawProduce"),
-    "C06/L6-m1": ("missed", "NOT CAUGHT: a ReadMessage on a Batch after its Close (compressed set closed early) reads from a buffer that went back to the pool; C06 never touches a Batch again once it closed it"),
+    "C06/L6-m1": ("missed", "readZ calls ask a batch that was closed with compressed records unread once more, after another batch has been decompressed: a closed batch delivers nothing"),
     "C07/L7-m1": ("missed", "wsim: messages with explicit Message.Time values that are not monotonic in submission order"),
     "C18/L7-m1": ("missed", "NOT CAUGHT: needs a mechanism of more than 8 round trips; the reference server speaks PLAIN and SCRAM only"),
     "C09/L8-m1": ("missed", "reader stratum setoffset-loop: Close while the application keeps calling SetOffset (C10's check reported it too, as a data race on Reader.cancel)"),
